@@ -185,6 +185,51 @@ class Check:
         return 0
 
 
+def run_goldens(pid, mod):
+    """Evaluate the property's rules on the stored golden (mutated) programs; every golden must be reported."""
+    import gzip
+    gdir = os.path.join(VERIF, "selftest", "golden")
+    idx = os.path.join(gdir, "index.json")
+    if os.environ.get("RQ_NO_GOLDEN") or not os.path.exists(idx):
+        return [], []
+    with open(idx) as f:
+        index = json.load(f)
+    done, failed = [], []
+    mine = [(n, e) for n, e in sorted(index.items()) if e["property"] == pid]
+    if not mine:
+        return done, failed
+    with gzip.open(os.path.join(gdir, "base.facts.json.gz"), "rt") as f:
+        base_text = f.read()
+    for name, ent in mine:
+        data = json.loads(base_text)
+        with gzip.open(os.path.join(gdir, name + ".overlay.json.gz"), "rt") as f:
+            overlay = json.load(f)
+        for crate, ov in overlay.items():
+            cd = data[crate]
+            repl = {f["id"]: f for f in ov["fns"]}
+            gone = set(ov.get("removed", []))
+            cd["fns"] = [repl.pop(f["id"], f) for f in cd["fns"] if f["id"] not in gone] + list(repl.values())
+            for k in ("literals", "adts", "impls"):
+                if k in ov:
+                    cd[k] = ov[k]
+        prog = facts.Program(data)
+        prog.info = {"tree_hash": "golden:" + name}
+        cg = callgraph.CallGraph(prog)
+        ck = Check(pid, prog, cg, tier="golden", level=mod.LEVEL)
+        ck.quiet = True
+        try:
+            mod.run(ck)
+        except Exception as e:     # a rule crashing on its golden is a machinery failure as well
+            failed.append("%s: exception %r" % (name, e))
+            continue
+        hit = sorted({o.rule for o in ck.obls if o.status == "violated"})
+        if any(r in hit for r in ent["rules"]) or (not ent["rules"] and hit):
+            done.append("%s -> %s" % (name, ",".join(hit)))
+        else:
+            failed.append("%s: expected a violation of %s, rules fired: %s" % (name, ent["rules"], hit))
+    return done, failed
+
+
 def load_known():
     if not os.path.exists(KNOWN):
         return {}
